@@ -162,8 +162,10 @@ let fmt_out name r =
   | RAlive b -> (name ^ (if b then " alive" else " dead"))
 
 let pending_evs : ev list ref = ref []
+let auto_q = ref true
+let () = handlers := ("autoquiesce", (fun a -> auto_q := (a = ["1"]); emit "autoquiesce")) :: (List.filter (fun (n, _) -> n <> "autoquiesce") !handlers)
 let do_op name o =
-  let (s', r) = step_q (n_of_int !st_k) !st_cfg !st o in
+  let (s', r) = (if !auto_q then step_q else step) (n_of_int !st_k) !st_cfg !st o in
   pending_evs := !pending_evs @ step_evs (n_of_int !st_k) !st_cfg !st s' o;
   (* the specification's answer, evaluated on the state the query ran in; the ghost flag of the
      known class F2 is reported so that the check can classify *)
@@ -529,7 +531,7 @@ let main () =
   let n = Array.length Sys.argv in
   let i = ref 1 in
   while !i + 1 < n do
-    tainted := false; hard_taint := false; Hashtbl.reset images; Hashtbl.reset outs; pending_evs := []; Hashtbl.reset probes; Hashtbl.reset blooms; Hashtbl.reset raws; st := init_storage; st_k := 4; st_lazy := false; st_validate := false;
+    tainted := false; hard_taint := false; auto_q := true; Hashtbl.reset images; Hashtbl.reset outs; pending_evs := []; Hashtbl.reset probes; Hashtbl.reset blooms; Hashtbl.reset raws; st := init_storage; st_k := 4; st_lazy := false; st_validate := false;
     st_cfg := { c_dup = true; c_maxrec = n_of_int 1000000; c_maxsize = n_of_int 1000000000 };
     run_script Sys.argv.(!i) Sys.argv.(!i + 1);
     i := !i + 2
